@@ -21,6 +21,8 @@ from harness import probes
 PROP = "C01"
 TARGETS = ["IbicusModel.Props.C01"]
 GEN = ["Debiasers"]
+TARGETS += ["IbicusModel.Lemmas.GenDebWin"]  # tier A of the per-window transfer functions (CDFt, ECDFM, QDM, QM, SDM absolute): the audit imports it
+GEN += ["DebWin"]  # Gen.DebWin: dataflow programs extracted by translator/extract_debiasers.py
 
 CORR_CONFIGS = ["LS-additive", "LS-multiplicative", "DC-additive", "DC-multiplicative", "QM-parametric-additive",
                 "QM-parametric-multiplicative", "QM-nonparametric-additive", "QM-nonparametric-no_detrending", "ECDFM",
@@ -250,7 +252,20 @@ def run_case(rec):
             out = deb._apply_on_window(obs, H, H.copy(), yO, yH, yH.copy())
         else:
             kO, kH, kF = rec.get("kinds", ["date"] * 3)
-            out = deb.apply_location(obs, H, H.copy(), probes.present(dO, kO), probes.present(dH, kH), probes.present(dH, kF))
+            lO, lH, lF = rec.get("layouts1d", ["C"] * 3)
+            out = deb.apply_location(lay1d(obs, lO), lay1d(H, lH), lay1d(H.copy(), lF), present(dO, kO), present(dH, kH), present(dH, kF))
+    return judge(rec, data, out)
+
+
+def judge(rec, data, out):
+    """the clauses of the property on ONE location: `out` is what the library returned for (obs, cm_hist, cm_future = cm_hist) of `data`"""
+    obs, H, dO, dH = data["obs"], data["H"], data["dO"], data["dH"]
+    name = rec["config"]
+    mode = tuple(rec["mode"]) if rec["mode"] else None
+    ymode = tuple(rec["ymode"]) if rec["ymode"] else None
+    scale = float(max(np.max(np.abs(obs)), np.max(np.abs(H))))  # relative to the data (pr fluxes are ~1e-6)
+    tol = 1e-8 * scale
+    out = np.asarray(out)
     want_n = obs.size if name.startswith("DC-") else H.size
     info = {"n_obs": int(obs.size), "n_hist": int(H.size), "clause": None}
     if out.shape != (want_n,) or not np.isfinite(out).all():
@@ -321,6 +336,414 @@ def run_case(rec):
     if abs(resid) > max(tol_loose, 0.25 * abs(bias)):
         return (f"{where}: residual mean bias {resid:+.4g} is not a small fraction of the original bias {bias:+.4g} "
                 f"(limit {max(tol_loose, 0.25 * abs(bias)):.3g})"), info
+    return None, info
+
+
+# ------------------------------------------------------------------ the ways a user can hand the SAME days / the SAME numbers over
+# The property is quantified over "all observation / simulation series" given to the PUBLIC entry points (`apply_location`, `apply`).
+# A series is its values and its calendar days — not the encoding of the time axis, not the epoch of the calendar, not the memory
+# layout of the arrays, not serial / parallel / failsafe execution, not how the debiaser object was obtained.  The cases below cover
+# that part of the quantifier ("for all inputs", "all eight debiasers, with and without running windows") systematically: every
+# encoding x every library function that reads the time axis x calendars on both sides of the datetime64 epoch, and every layout x
+# every execution path of `apply`, a few of each on every run.  They are judged by the very clauses of `judge` (nothing more).
+ALL_KINDS = ("date", "datetime", "datetime_tz", "plain", "pd_ts", "M8D", "M8h", "M8m", "M8s", "M8ms", "M8us", "M8ns", "pd_values")
+EPOCH_KINDS = ("M8D", "M8h", "M8m", "M8s", "M8ms", "M8us", "M8ns", "pd_values")  # integer offsets from 1970-01-01: the sign matters
+TIME_PATHS = ("doy", "month", "year", "isimip-year")  # utils.day_of_year (running windows) / month (ISIMIP month mode) / year (year windows; ISIMIP trend)
+EPOCHS = ("pre1970", "straddle", "post1970", "pre1900", "post2038")
+LAYOUTS_1D = ("C", "strided", "reversed", "readonly", "column", "byteswapped")
+LAYOUTS_3D = ("C", "F", "T", "swap", "moveaxis", "strided_t", "strided_xy", "reversed", "readonly", "byteswapped", "broadcast")
+CONSTRUCT = ("plain", "reused", "interleaved", "deepcopy")
+GRID_CONFIGS = ["LS-additive", "QM-parametric", "DC-additive", "QM-nonparametric", "ECDFM", "LS-multiplicative", "QDM-absolute", "SDM-absolute",
+                "CDFt", "ISIMIP", "DC-multiplicative"]
+
+
+def present(dates, kind):
+    """probes.present plus pandas' encodings (what xarray / pandas readers hand out)"""
+    if kind == "pd_ts":
+        import pandas as pd
+
+        return np.array([pd.Timestamp(d.year, d.month, d.day, 18 if i % 2 else 0) for i, d in enumerate(dates)], dtype=object)
+    if kind == "pd_values":
+        import pandas as pd
+
+        return pd.DatetimeIndex([d.isoformat() for d in dates]).values  # datetime64 in pandas' resolution
+    return probes.present(dates, kind)
+
+
+def _other_endian(x):
+    return x.astype(x.dtype.newbyteorder("S"))  # same values, the byte order a file written on another architecture has
+
+
+def lay1d(x, how):
+    """the same values in another of the memory layouts numpy hands out for a 1-d series (gaps hold NaN: reading them shows)"""
+    if how == "C":
+        return x
+    n = x.size
+    if how == "strided":  # every second element of a longer record
+        buf = np.full(2 * n, np.nan, dtype=x.dtype)
+        buf[::2] = x
+        return buf[::2]
+    if how == "reversed":  # stored latest-first, viewed earliest-first (negative stride)
+        return x[::-1].copy()[::-1]
+    if how == "readonly":  # memory-mapped / broadcast / user-protected arrays
+        y = x.copy()
+        y.setflags(write=False)
+        return y
+    if how == "column":  # one cell of a (time, x, y) cube — what `apply` itself passes down
+        buf = np.full((n, 2, 3), np.nan, dtype=x.dtype)
+        buf[:, 1, 2] = x
+        return buf[:, 1, 2]
+    if how == "byteswapped":
+        return _other_endian(x)
+    raise ValueError(how)
+
+
+def lay3d(a, how):
+    """the same (time, x, y) values in another memory layout"""
+    n, nx, ny = a.shape
+    if how == "C":
+        return np.ascontiguousarray(a)
+    if how == "F":
+        return np.asfortranarray(a)
+    if how == "T":  # stored (y, x, time), brought to (time, x, y) with .T
+        return np.ascontiguousarray(a.T).T
+    if how == "swap":  # stored (time, y, x), spatial axes swapped with transpose
+        return np.ascontiguousarray(a.transpose(0, 2, 1)).transpose(0, 2, 1)
+    if how == "moveaxis":  # stored (x, y, time)
+        return np.moveaxis(np.ascontiguousarray(np.moveaxis(a, 0, -1)), -1, 0)
+    if how == "strided_t":  # every second step of a longer record
+        buf = np.full((2 * n, nx, ny), np.nan, dtype=a.dtype)
+        buf[::2] = a
+        return buf[::2]
+    if how == "strided_xy":  # a thinned sub-region of a larger domain
+        buf = np.full((n, 2 * nx + 1, 2 * ny + 1), np.nan, dtype=a.dtype)
+        buf[:, 1::2, 1::2] = a
+        return buf[:, 1::2, 1::2]
+    if how == "reversed":  # negative strides on every axis
+        return a[::-1, ::-1, ::-1].copy()[::-1, ::-1, ::-1]
+    if how == "readonly":
+        b = a.copy()
+        b.setflags(write=False)
+        return b
+    if how == "byteswapped":
+        return _other_endian(np.ascontiguousarray(a))
+    if how == "broadcast":  # one series for every cell (a station record against a grid): zero strides, read-only
+        return np.broadcast_to(a[:, :1, :1], a.shape)
+    raise ValueError(how)
+
+
+def _epoch_y0(rng, epoch, nyO, nyH):
+    """first year of obs (cm_hist starts in the same or the next year) so that the spans lie as `epoch` says"""
+    span = max(nyO, nyH) + 1
+    if epoch == "pre1970":
+        return rng.randint(1925, 1969 - span)
+    if epoch == "straddle":  # both spans contain days of 1969 and of 1970
+        return 1968 - rng.randint(0, max(0, min(nyO, nyH) - 3))
+    if epoch == "pre1900":
+        return rng.randint(1850, 1899 - span)
+    if epoch == "post2038":
+        return rng.randint(2040, 2090)
+    return rng.randint(1972, 2015)
+
+
+def gen_enc_case(rng, path, kind, epoch, k):
+    """one `apply_location` case of the existing kinds (judged by `judge`) whose time axes are given in encoding `kind`, whose calendar
+    lies as `epoch` says, and whose configuration makes the library read the time axis through `path`"""
+    ymode, extra = None, {}
+    if path == "doy":
+        name = ["LS-additive", "QM-parametric", "QM-nonparametric", "ECDFM", "SDM-absolute", "DC-additive", "QDM-absolute", "CDFt",
+                "LS-multiplicative", "ISIMIP"][k % 10]
+        S = rng.choice([15, 31, 61])
+        L = max(S, rng.choice([61, 91]))
+        mode = [L, S]
+        nyO, nyH = rng.randint(4, 5), rng.randint(4, 5)
+    elif path == "month":
+        name, mode = "ISIMIP", None
+        nyO, nyH = rng.randint(8, 9), rng.randint(8, 9)  # >= 200 values per month: the loose clause is judged
+    elif path == "year":
+        name, mode = ["CDFt", "QDM-absolute"][k % 2], None
+        ymode = rng.choice([[17, 9], [5, 3], [9, 9], [3, 1]])
+        nyO, nyH = rng.randint(3, 8), rng.randint(6, 10)
+    else:  # ISIMIP step 3 reads the years of all three axes when the annual means have a significant trend
+        name = "ISIMIP-trend"
+        S = rng.choice([31, 61])
+        mode = [max(S, 61), S] if k % 2 else None
+        nyO = nyH = rng.randint(12, 14)
+        slope_obs = rng.choice([0.0, 0.05, -0.05])
+        extra = dict(slope_obs=slope_obs, slope_H=slope_obs + rng.choice([-1, 1]) * rng.choice([0.15, 0.2, 0.25]))
+    equal = name.startswith("DC-") or name == "ISIMIP-trend" or (k % 4 == 0)
+    if equal:
+        nyH = nyO
+    kinds = [kind] * 3
+    if k % 2:
+        kinds = [rng.choice(ALL_KINDS) for _ in range(3)]
+        kinds[rng.randrange(3)] = kind
+    rec = dict(config=name, case="enc", path=path, epoch=epoch, mode=mode, ymode=ymode, nyO=nyO, nyH=nyH, equal=equal,
+               y0=_epoch_y0(rng, epoch, nyO, nyH), np_seed=rng.randint(0, 2**31 - 1), short=False,
+               sigma_bias=rng.choice([-1, 1]) * rng.choice([1.0 / 3, 1.0, 3.0]), sd_ratio=rng.choice([1.0, 1.5]), kinds=kinds,
+               layouts1d=[rng.choice(LAYOUTS_1D) for _ in range(3)], **extra)
+    if name == "ISIMIP-trend":
+        rec["sigma_bias"] = rng.choice([-1, 1]) * rng.choice([1.0 / 3, 2.0 / 3])
+    return rec
+
+
+def enc_plan(rng, tier):
+    """(path, kind, epoch) triples of one run: every time-reading path x every encoding; the encodings that count from 1970 get a
+    calendar before the epoch AND another one, the object encodings one (rotating); the slow ISIMIP-trend path a rotating subset in quick"""
+    plan = []
+    for pi, path in enumerate(TIME_PATHS):
+        kinds = list(ALL_KINDS)
+        rng.shuffle(kinds)
+        slow = path == "isimip-year"
+        for ki, kind in enumerate(kinds):
+            if kind in EPOCH_KINDS:
+                if slow and tier == "quick" and ki % 2:
+                    continue
+                plan.append((path, kind, "pre1970"))
+                if not (slow and tier == "quick"):
+                    plan.append((path, kind, EPOCHS[1 + (ki + pi) % 4]))
+            elif not (slow and tier == "quick" and ki % 2):
+                plan.append((path, kind, EPOCHS[(ki + pi) % 5]))
+    return plan
+
+
+def gen_grid_case(rng, k, tier, rot=0):
+    """the public `apply` on a (time, x, y) grid: debiaser x window mode x memory layout of each of the three arrays x serial / parallel x
+    failsafe x progress bar x time-axis encoding x how the debiaser object was obtained"""
+    name = GRID_CONFIGS[k % len(GRID_CONFIGS)]
+    heavy = name in ("ISIMIP", "CDFt", "QDM-absolute", "SDM-absolute")
+    windowed = name == "ISIMIP" or k % 3 == 1
+    ymode = None
+    if windowed:
+        S = rng.choice([31, 61])
+        mode = [max(S, rng.choice([61, 91])), S]
+        nyO, nyH = rng.randint(4, 5), rng.randint(4, 5)
+        if name == "ISIMIP" and k % 2:
+            mode = None  # month mode
+    else:
+        mode = None
+        nyO, nyH = rng.randint(1, 4), rng.randint(1, 4)
+        if name in ("QDM-absolute", "CDFt") and rng.random() < 0.5:
+            ymode = rng.choice([[5, 3], [9, 9]])
+    equal = name.startswith("DC-") or (name in ("QM-nonparametric", "SDM-absolute", "CDFt") and k % 2 == 0)
+    if equal:
+        nyH = nyO
+    # layouts: the k-th case puts the k-th layout on cm_future (the array the result buffer is allocated from), rotating ones on the others
+    # (`rot` and the round k // #debiasers shift the pairing, so that a debiaser meets another layout in every round and on every seed)
+    q = k + rot + k // len(GRID_CONFIGS)
+    lF = LAYOUTS_3D[q % len(LAYOUTS_3D)]
+    lO = LAYOUTS_3D[(3 * q + 1) % len(LAYOUTS_3D)]
+    lH = LAYOUTS_3D[(5 * q + 2) % len(LAYOUTS_3D)]
+    shape = rng.choice([[2, 3], [3, 2], [2, 2]]) if not heavy else rng.choice([[2, 2], [1, 2], [2, 1]])
+    parallel = k % 4 == 3
+    timed = mode is not None or ymode is not None or name == "ISIMIP" or rng.random() < 0.5
+    epoch = EPOCHS[k % len(EPOCHS)]
+    rec = dict(config="grid/" + name, debiaser=name, mode=mode, ymode=ymode, nyO=nyO, nyH=nyH, equal=equal, y0=_epoch_y0(rng, epoch, nyO, nyH),
+               np_seed=rng.randint(0, 2**31 - 1), short=False, sigma_bias=rng.choice([-1, 1]) * rng.choice([0.5, 1.0]), sd_ratio=rng.choice([1.0, 1.5]),
+               shape=shape, layouts=[lO, lH, lF], parallel=parallel, nr_processes=rng.choice([None, 2, 3, 7]) if parallel else None,
+               failsafe=k % 2 == 0, progressbar=(not parallel and k % 5 == 0), kinds=[rng.choice(ALL_KINDS) for _ in range(3)] if timed else None,
+               construct=CONSTRUCT[(k // 2) % len(CONSTRUCT)], epoch=epoch)
+    if name in PR_LIKE and k % 2 == 0:
+        rec["flux"] = K.FLUX[(k // 2) % len(K.FLUX)]
+    return rec
+
+
+def _construct(name, mode, ymode, how, shape):
+    """the debiaser object, obtained one of the ways a session legitimately produces it"""
+    import copy
+
+    deb = make(name, mode, ymode)
+    if how == "deepcopy":
+        return copy.deepcopy(deb)
+    if how == "interleaved":  # other debiasers (other variables, other window settings) are configured between construction and use
+        for other in ("LS-multiplicative", "QM-parametric", "DC-multiplicative"):
+            make(other, (31, 31) if mode is None else None)
+        make(name, (91, 7) if name not in ("ISIMIP-window",) else None, None)
+        return deb
+    if how == "reused":  # the object has already debiased another, differently shaped data set
+        r = np.random.RandomState(7)
+        nt = 800
+        a = 283.0 + 3.0 * r.standard_normal((nt, 1, 2))
+        b = 285.0 + 4.0 * r.standard_normal((nt, 1, 2))
+        if name in PR_LIKE:
+            a, b = np.abs(a - 280.0) + 0.01, np.abs(b - 280.0) + 0.01
+        with warnings.catch_warnings(), np.errstate(all="ignore"):
+            warnings.simplefilter("ignore")
+            deb.apply(a, b, b.copy(), progressbar=False)
+        return deb
+    return deb
+
+
+def run_grid_case(rec):
+    import contextlib
+    import io
+
+    name = rec["debiaser"]
+    nx, ny = rec["shape"]
+    cell_rec = dict(rec, config=name)
+    cells = {}
+    for i in range(nx):
+        for j in range(ny):
+            c = i * ny + j
+            d = build(dict(cell_rec, np_seed=(rec["np_seed"] + 7919 * c) % (2**31 - 1)))
+            if name in PR_LIKE:  # every cell has its own climatology
+                d["obs"], d["H"] = d["obs"] * (1.0 + 0.25 * c), d["H"] * (1.0 + 0.25 * c)
+            else:
+                d["obs"], d["H"] = d["obs"] + 3.0 * c, d["H"] + 3.0 * c
+            cells[(i, j)] = d
+    d0 = cells[(0, 0)]
+    dO, dH = d0["dO"], d0["dH"]
+    cube = lambda key: np.stack([np.stack([cells[(i, j)][key] for j in range(ny)], axis=1) for i in range(nx)], axis=1)  # noqa: E731
+    lO, lH, lF = rec["layouts"]
+    obs3, H3 = lay3d(cube("obs"), lO), lay3d(cube("H"), lH)
+    F3 = lay3d(np.array(H3, dtype=float), lF)  # cm_future = cm_hist value for value (whatever the layouts did to the values)
+    H3v, obs3v = np.array(H3, dtype=float), np.array(obs3, dtype=float)
+    if lF == "broadcast":  # cm_future is one series for all cells: so must cm_hist be (value for value)
+        H3 = lay3d(np.array(F3, dtype=float), "C")
+        H3v = np.array(H3, dtype=float)
+    mode = tuple(rec["mode"]) if rec["mode"] else None
+    ymode = tuple(rec["ymode"]) if rec["ymode"] else None
+    kw = dict(progressbar=bool(rec.get("progressbar")), failsafe=bool(rec.get("failsafe")))
+    if rec.get("parallel"):
+        kw["parallel"] = True
+        if rec.get("nr_processes"):
+            kw["nr_processes"] = int(rec["nr_processes"])
+    if rec.get("kinds"):
+        kO, kH, kF = rec["kinds"]
+        kw.update(time_obs=present(dO, kO), time_cm_hist=present(dH, kH), time_cm_future=present(dH, kF))
+    where = (f"grid/{name} apply(windows {mode}, year windows {ymode}, grid {H3v.shape[0]}x{nx}x{ny}, n_obs={obs3v.shape[0]}, layouts (obs, cm_hist, "
+             f"cm_future) = {tuple(rec['layouts'])}, {'parallel' if rec.get('parallel') else 'serial'}, failsafe={kw['failsafe']}, time axes "
+             f"{rec.get('kinds')}, {rec.get('epoch')} from {rec['y0']}, debiaser {rec.get('construct')})")
+    with warnings.catch_warnings(), np.errstate(all="ignore"), contextlib.redirect_stderr(io.StringIO()):
+        warnings.simplefilter("ignore")
+        deb = _construct(name, mode, ymode, rec.get("construct", "plain"), rec["shape"])
+        out = deb.apply(obs3, H3, F3, **kw)
+    info = {"n_obs": int(obs3v.shape[0]), "n_hist": int(H3v.shape[0]), "clause": None}
+    out = np.asarray(out)
+    want = obs3v.shape if name.startswith("DC-") else H3v.shape
+    if out.shape != want:
+        return f"{where}: output shape {out.shape}, expected {want}", info
+    for (i, j), d in cells.items():
+        data = dict(d, obs=obs3v[:, i, j], H=H3v[:, i, j])
+        p, ci = judge(cell_rec, data, out[:, i, j])
+        info.update(ci)
+        if p:
+            return f"{where}: cell ({i}, {j}): {p}", info
+    return None, info
+
+
+# ------------------------------------------------------------------ the proved bound at unequal sizes (Props.C01 §7)
+BOUND_SHAPES = ["uniform", "outlier_high", "outlier_low", "clustered", "small_n", "small_m"]
+
+
+def gen_bound_case(rng, k, method="QM-nonparametric"):
+    """window-free non-parametric QuantileMapping (or CDFt), cm_future = cm_hist.copy(), tie-free dyadic data, n != m in 2..400"""
+    if method == "CDFt":
+        n, m = rng.randint(2, 400), rng.randint(2, 400)
+        if k % 3 == 0:
+            n = rng.randint(2, 6)
+        if k % 3 == 1:
+            m = rng.randint(2, 6)
+        while m == n:
+            m = rng.randint(2, 400)
+        return dict(config="bound/CDFt", shape=["uniform", "clustered"][k % 2], n=n, m=m, np_seed=rng.randint(0, 2**31 - 1),
+                    bias=rng.choice([-20.0, -3.0, 0.5, 7.0, 40.0]), cover=rng.choice([1.25, 2.0, 6.0]))
+    shape = BOUND_SHAPES[k % len(BOUND_SHAPES)]
+    n, m = rng.randint(2, 400), rng.randint(2, 400)
+    if shape == "small_n":
+        n = rng.randint(2, 6)
+    if shape == "small_m":
+        m = rng.randint(2, 6)
+    while m == n:
+        m = rng.randint(2, 400)
+    return dict(config="bound/QM-nonparametric", shape=shape, n=n, m=m, np_seed=rng.randint(0, 2**31 - 1),
+                detrending=rng.choice(["additive", "no_detrending"]), bias=rng.choice([-20.0, -3.0, 0.5, 7.0, 40.0]),
+                spread=rng.choice([0.25, 1.0, 4.0]))
+
+
+def build_bound(rec):
+    nprs = np.random.RandomState(rec["np_seed"])
+    n, m, shape = rec["n"], rec["m"], rec["shape"]
+    # distinct multiples of 1/64: exact in floats, exact in the model's rationals, no ties
+    obs = nprs.choice(64 * 40, size=n, replace=False).astype(float) / 64.0
+    if shape == "outlier_high":
+        obs[int(nprs.randint(n))] += 1000.0
+    elif shape == "outlier_low":
+        obs[int(nprs.randint(n))] -= 1000.0
+    elif shape == "clustered":
+        obs = np.where(np.arange(n) % 2 == 0, obs, obs + 500.0)
+    obs = obs + 270.0
+    H = nprs.choice(64 * 40 * 8, size=m, replace=False).astype(float) / 64.0 * rec["spread"] + 270.0 + rec["bias"]
+    return obs, H
+
+
+def run_bound_case_cdft(rec):
+    """Props.C01.cdft_mean_bound on the real code: |mean(out) - mean(obs)| <= range(obs) (1/n + 1/m), judged under the theorem's range
+    guard (the observations lie inside the range of the shifted cm_hist, so CDFt's last step does not clamp)"""
+    from ibicus.debias import CDFt
+
+    nprs = np.random.RandomState(rec["np_seed"])
+    n, m = rec["n"], rec["m"]
+    obs = nprs.choice(64 * 40, size=n, replace=False).astype(float) / 64.0
+    if rec["shape"] == "clustered":
+        obs = np.where(np.arange(n) % 2 == 0, obs, obs + 500.0)
+    width = float(np.ptp(obs)) * rec["cover"] + 1.0
+    H = (nprs.choice(1 << 14, size=m, replace=False).astype(float) / float(1 << 14) - 0.5) * width  # distinct values (spacing width / 2^14)
+    H = H + float(np.mean(obs)) + rec["bias"]
+    obs = obs + 270.0
+    H = H + 270.0
+    with warnings.catch_warnings(), np.errstate(all="ignore"):
+        warnings.simplefilter("ignore")
+        deb = CDFt.from_variable("tas", running_window_mode=False, running_window_mode_over_years_of_cm_future=False)
+        out = deb.apply_location(obs.copy(), H.copy(), H.copy())
+    info = {"n_obs": int(n), "n_hist": int(m), "clause": "proved bound (CDFt): |residual| <= range (1/n + 1/m)"}
+    where = f"bound/CDFt ({rec['shape']}, n_obs={n}, n_hist={m}, window-free, cm_future = cm_hist)"
+    if out.shape != (m,) or not np.isfinite(out).all():
+        return f"{where}: output shape {out.shape} / non-finite values for finite input", info
+    Hs = H + (np.mean(obs) - np.mean(H))
+    if np.unique(Hs).size != m or not (Hs.min() <= obs.min() and obs.max() <= Hs.max()):
+        info["clause"] = "not judged (CDFt: range guard of the theorem does not hold)"
+        return None, info
+    scale = float(max(np.max(np.abs(obs)), np.max(np.abs(H))))
+    rng_obs = float(np.ptp(obs))
+    resid = float(np.mean(out) - np.mean(obs))
+    bound = rng_obs * (1.0 / n + 1.0 / m)
+    info.update(residual=resid, upper=bound, lower=-bound, bias=float(np.mean(H) - np.mean(obs)), ratio=abs(resid) / bound if bound > 0 else 0.0)
+    if not abs(resid) <= bound + 1e-9 * scale:
+        return (f"{where}: residual mean bias {resid:+.6g} exceeds the proved bound range(obs)(1/n + 1/m) = {bound:.6g} "
+                f"(Props.C01.cdft_mean_bound; original bias {info['bias']:+.4g})"), info
+    return None, info
+
+
+def run_bound_case(rec):
+    """Props.C01.qm_nonparam_mean_bounds on the real code:  -range(obs)/n <= mean(out) - mean(obs) <= range(obs)/m"""
+    if rec["config"] == "bound/CDFt":
+        return run_bound_case_cdft(rec)
+    from ibicus.debias import QuantileMapping
+
+    obs, H = build_bound(rec)
+    n, m = obs.size, H.size
+    with warnings.catch_warnings(), np.errstate(all="ignore"):
+        warnings.simplefilter("ignore")
+        deb = QuantileMapping.from_variable("tas", mapping_type="nonparametric", detrending=rec["detrending"], running_window_mode=False)
+        out = deb.apply_location(obs.copy(), H.copy(), H.copy())
+    info = {"n_obs": int(n), "n_hist": int(m), "clause": "proved bound: -range/n <= residual <= range/m"}
+    where = f"bound/QM-nonparametric ({rec['shape']}, detrending {rec['detrending']}, n_obs={n}, n_hist={m}, window-free, cm_future = cm_hist)"
+    if out.shape != (m,) or not np.isfinite(out).all():
+        return f"{where}: output shape {out.shape} / non-finite values for finite input", info
+    if np.unique(H).size != m:   # guard of the theorem (cannot happen with the generator above)
+        info["clause"] = "not judged (ties in cm_hist)"
+        return None, info
+    scale = float(max(np.max(np.abs(obs)), np.max(np.abs(H))))
+    slack = 1e-9 * scale
+    rng_obs = float(np.max(obs) - np.min(obs))
+    resid = float(np.mean(out) - np.mean(obs))
+    lo, hi = -rng_obs / n, rng_obs / m
+    info.update(residual=resid, lower=lo, upper=hi, bias=float(np.mean(H) - np.mean(obs)),
+                ratio=abs(resid) / (rng_obs * max(1.0 / n, 1.0 / m)) if rng_obs > 0 else 0.0)
+    if not (lo - slack <= resid <= hi + slack):
+        return (f"{where}: residual mean bias {resid:+.6g} outside the proved interval [-range(obs)/n, range(obs)/m] = [{lo:.6g}, {hi:.6g}] "
+                f"(Props.C01.qm_nonparam_mean_bounds; original bias {info['bias']:+.4g})"), info
     return None, info
 
 
@@ -405,9 +828,82 @@ def run(tier, res, force_search=False, measure=False):
     par1 = dict(par, shape=[1, 1], debiaser="ECDFM", config="apply/ECDFM", np_seed=rng.randint(0, 2**31 - 1))  # fewer cells than processes
     K.apply_cases(rng, tier, res, problems, PROP, extra=[par, par1])
 
+    # every time-axis encoding x every time-reading path x calendars on both sides of 1970 (apply_location), and the public `apply` over
+    # memory layouts x serial / parallel x failsafe x construction (see the comment above ALL_KINDS for the quantifier these cover)
+    xrng = random.Random(C.seed() * 7919 + 307)
+    plan = enc_plan(xrng, tier)
+    if force_search or not lean_ok or mism:
+        plan = plan * 2
+    enc_cov = {}
+    for k, (path, kind, epoch) in enumerate(plan):
+        rec = gen_enc_case(xrng, path, kind, epoch, k)
+        try:
+            p, info = run_case(rec)
+        except Exception as ex:  # noqa: BLE001
+            p, info = f"{rec['config']} ({path}, time axes {rec['kinds']}, {epoch} from {rec['y0']}, layouts {rec['layouts1d']}): {type(ex).__name__}: {str(ex)[:200]}", {}
+        if p and not p.startswith(rec["config"] + " (" + path):
+            p = f"[time axes {rec['kinds']} read through {path}, calendar {epoch} from {rec['y0']}, layouts {rec['layouts1d']}] {p}"
+        enc_cov[(path, kind in EPOCH_KINDS, epoch)] = enc_cov.get((path, kind in EPOCH_KINDS, epoch), 0) + 1
+        res.count(("enc", path, kind, epoch, rec["config"], (info.get("clause") or "error")[:12]), True,
+                  sample={k2: rec[k2] for k2 in ("config", "path", "epoch", "kinds", "layouts1d", "mode", "ymode", "y0")})
+        if p:
+            problems.append((p, rec))
+    n_grid = 33 if tier == "quick" else 132
+    if force_search or not lean_ok or mism:
+        n_grid *= 2
+    rot = xrng.randrange(len(LAYOUTS_3D))
+    for k in range(n_grid):
+        rec = gen_grid_case(xrng, k, tier, rot)
+        try:
+            p, info = run_grid_case(rec)
+        except Exception as ex:  # noqa: BLE001
+            p, info = (f"{rec['config']} apply(windows {rec['mode']}, grid {rec['shape']}, layouts {rec['layouts']}, parallel={rec['parallel']}, failsafe="
+                       f"{rec['failsafe']}, time axes {rec['kinds']}, debiaser {rec['construct']}): {type(ex).__name__}: {str(ex)[:200]}"), {}
+        res.count(("grid", rec["debiaser"], str(rec["mode"]), tuple(rec["layouts"]), rec["parallel"], rec["failsafe"], rec["construct"]), True,
+                  sample={k2: rec[k2] for k2 in ("config", "mode", "shape", "layouts", "parallel", "failsafe", "kinds", "construct")})
+        if p:
+            problems.append((p, rec))
+    res.extra["oracle"]["encodings_and_layouts"] = {
+        "apply_location_cases": len(plan), "by_path_epochal_epoch": {f"{a}/{'datetime64' if b else 'objects'}/{c}": n for (a, b, c), n in sorted(enc_cov.items())},
+        "apply_grid_cases": n_grid, "time_encodings": list(ALL_KINDS), "layouts_3d": list(LAYOUTS_3D), "layouts_1d": list(LAYOUTS_1D)}
+
+    # the bound PROVED for unequal sizes (Props.C01.qm_nonparam_mean_bounds / _bound), checked as stated on the real code
+    brng = random.Random(C.seed() * 7919 + 211)
+    n_b = 90 if tier == "quick" else 1500
+    if force_search or not lean_ok or mism:
+        n_b *= 3
+    worst_b, judged_b = 0.0, 0
+    worst_c, judged_c = 0.0, 0
+    for k in range(n_b + n_b // 2):
+        rec = gen_bound_case(brng, k) if k < n_b else gen_bound_case(brng, k - n_b, "CDFt")
+        try:
+            p, info = run_bound_case(rec)
+        except Exception as ex:  # noqa: BLE001
+            p, info = f"bound/QM-nonparametric: {type(ex).__name__}: {str(ex)[:200]}", {}
+        if "ratio" in info and rec["config"] == "bound/CDFt":
+            judged_c += 1
+            worst_c = max(worst_c, info["ratio"])
+        elif "ratio" in info:
+            judged_b += 1
+            worst_b = max(worst_b, info["ratio"])
+        res.count((rec["config"], rec["shape"], rec.get("detrending"), rec["n"] // 100, rec["m"] // 100, rec["n"] < rec["m"], "ratio" in info),
+                  abs(info.get("residual", 0.0)) > 0, sample={k2: rec.get(k2) for k2 in ("config", "shape", "n", "m", "detrending")})
+        if p:
+            problems.append((p, rec))
+    res.extra["oracle"]["proved_bound_unequal_sizes"] = {
+        "theorem": "Props.C01.qm_nonparam_mean_bounds: -range(obs)/n <= mean(out)-mean(obs) <= range(obs)/m", "cases": n_b, "judged": judged_b,
+        "worst_abs_residual_over_bound": worst_b, "slack": "1e-9*max|values|",
+        "cdft": {"theorem": "Props.C01.cdft_mean_bound: |mean(out)-mean(obs)| <= range(obs)(1/n+1/m) under the range guard", "cases": n_b // 2,
+                 "judged": judged_c, "worst_abs_residual_over_bound": worst_c}}
+    res.notes.append("unequal sample sizes, window-free non-parametric QuantileMapping (default method pair), tie-free cm_hist: the residual mean "
+                     "bias is PROVED to lie in [-range(obs)/n, range(obs)/m] (Props.C01.qm_nonparam_mean_bounds, |.| <= range(obs)/min(n,m)); the "
+                     "same inequality is checked on the real code (res.extra['oracle']['proved_bound_unequal_sizes']). CDFt (default pair) at unequal "
+                     "sizes: |residual| <= range(obs)(1/n+1/m) PROVED under the range guard obs within [min H', max H'] (Props.C01.cdft_mean_bound; "
+                     "false without it) and checked likewise. Still decided by the oracle only: seasonal running windows, CDFt outside the guard")
+
     seen = set()
     for p, rec in problems:
-        key = rec["config"]
+        key = rec.get("case", "") + rec["config"]
         if key in seen:
             continue
         seen.add(key)
@@ -425,6 +921,10 @@ def replay(data):
         return 1
     if str(rec.get("config", "")).startswith("apply/"):
         p, info = K.run_apply_case(rec)
+    elif str(rec.get("config", "")).startswith("grid/"):
+        p, info = run_grid_case(rec)
+    elif str(rec.get("config", "")).startswith("bound/"):
+        p, info = run_bound_case(rec)
     else:
         p, info = run_case(rec)
     print("replay", rec["config"], "->", p or "property holds on this input", info)
